@@ -96,13 +96,23 @@ FamAlias ==
             Tup("a-b","o","c", SS("a","p","z")), Tup("a","p","z", Id("v")), Tup("x","s","r", SS("a","o","b")) >>,
    Q |-> << Tup("x","s","r", Id("u")), Tup("x","s","r", Id("v")) >>]
 
-Fams == [rw |-> FamRw, nest |-> FamNest, plain |-> FamPlain, rec |-> FamRec, strictx |-> FamStrictX, alias |-> FamAlias]
+\* the check-wide visited set against storage order: a node whose subject sets are listed as [already visited, not yet visited],
+\* with the only granting path two hops below the later one (diamond 1-2-3-4, self loop 8, back edge 9)
+FamDiam ==
+  [cfg |-> [n |-> [x \in {} |-> Rel(<<>>, None)]],
+   U |-> << Tup("n","s","r", SS("n","a","r")), Tup("n","s","r", SS("n","b","r")),
+            Tup("n","a","r", SS("n","b","r")), Tup("n","a","r", SS("n","c","r")),
+            Tup("n","c","r", SS("n","d","r")), Tup("n","d","r", Id("u")),
+            Tup("n","b","r", SS("n","c","r")), Tup("n","a","r", SS("n","a","r")), Tup("n","c","r", SS("n","a","r")) >>,
+   Q |-> << Tup("n","s","r", Id("u")), Tup("n","a","r", Id("u")), Tup("n","b","r", Id("u")), Tup("n","s","r", Id("w")) >>]
+
+Fams == [diam |-> FamDiam, rw |-> FamRw, nest |-> FamNest, plain |-> FamPlain, rec |-> FamRec, strictx |-> FamStrictX, alias |-> FamAlias]
 \* the alias family's namespaces carry a '-' and cannot be record fields
 CfgOf(f) == IF f = "alias" THEN [n \in {"x", "a", "a-b"} |-> [y \in {} |-> Rel(<<>>, None)]] ELSE Fams[f].cfg
 W_2 == <<1, 100>>
 W_3 == <<1, 2, 100>>
 W_4 == <<1, 2, 3, 100>>
-Legacy == FamName \in {"plain", "alias"}   \* namespaces given as AST (no OPL text, no strict mode)
+Legacy == FamName \in {"plain", "alias", "diam"}   \* namespaces given as AST (no OPL text, no strict mode)
 Fam == Fams[FamName]
 N == Len(Fam.U)
 
@@ -164,6 +174,7 @@ ASSUME Stratified(KBase({}, 1, FALSE, 100))
 Witness == CASE FamName = "rw"    -> {{2, 8}, {1, 3, 4, 5, 6}, {2, 3, 5, 6}}
              [] FamName = "alias" -> {{1, 2, 3, 4}, {1, 2, 5, 6}}
              [] FamName = "rec"   -> {{1, 2, 3}, {1, 3, 6, 9}}
+             [] FamName = "diam"  -> {{1, 2, 3, 4, 5, 6}, {1, 4, 5, 6, 8}, {1, 2, 3, 4, 5, 6, 9}}
              [] OTHER -> {}
 Subsets == IF Sample = 0 THEN SUBSET (1..N) ELSE RandomSubset(Sample, SUBSET (1..N)) \cup {{}, 1..N} \cup Witness
 Init == S \in Subsets /\ oi \in 1..NumOrds /\ strict \in (IF Legacy THEN {FALSE} ELSE StrictSet) /\ done = FALSE /\ bad = {}
